@@ -270,7 +270,7 @@ def sig_F75(ast_line, real, ev, st=None):
     return bool(hit)
 
 
-SIGNATURES = [("F64c02", sig_F64c02), ("F75", sig_F75), ("F73", sig_F73), ("F53c02", sig_F53c02)]
+SIGNATURES = [("F64c02", sig_F64c02), ("F75", sig_F75), ("F53c02", sig_F53c02), ("F73", sig_F73)]
 
 
 def known_finding_of(ast_line, real, ev, st=None):
@@ -447,14 +447,14 @@ def run(ctx):
     # ---------------------------------------------------------------- sources
     suite = suite_pairs()
     n_suite_total = len(suite)
-    cap = ctx.n(2000, 10**9)
+    cap = ctx.n(700, 10**9)
     if len(suite) > cap:
         idx = sorted(ctx.rng.sample(range(len(suite)), cap))
         suite = [suite[i] for i in idx]
     spec_blocks = [(o, s, None) for o, s in testsrc.spec_examples()]
     corpus = corpus_cases("c02_spec.txt") + corpus_cases("c02_probes.txt") + corpus_cases("c02_known.txt")
     gstats = {}
-    ngen = ctx.n(1500, 50000)
+    ngen = ctx.n(700, 50000)
     gen = [("gen:%d" % i, c02gen.generate(ctx.rng, gstats), None) for i in range(ngen)]
 
     cases = [("corpus",) + c for c in corpus] + [("suite",) + c for c in suite] + \
@@ -476,6 +476,7 @@ def run(ctx):
     disagreements = []
     known_hits = collections.Counter()
     expected_mismatch = []
+    known_matches = []
     for key, (c, (ast, real, ev, st)) in results.items():
         kind, origin, src, exp = c
         cat = classify(real, ev)
@@ -526,6 +527,8 @@ def run(ctx):
                 path = ctx.violation({"kind": "impl-violation", "finding": fid, "what": why, "origin": origin,
                                       "source": src, "real": real, "evaluator": ev}, finding_key=fid)
                 known_hits[fid] += 1
+                if kind != "corpus" and len(known_matches) < 10:
+                    known_matches.append({"finding": fid, "origin": origin, "source": src, "real": real, "evaluator": ev})
                 if path is None:
                     continue
             else:
@@ -574,6 +577,7 @@ def run(ctx):
     cov["disagreements_checked"] = compared
     cov["disagreements"] = tot["DISAGREE"]
     cov["disagreements_matching_a_known_finding"] = dict(known_hits)
+    cov["known_finding_matches_outside_corpus"] = known_matches
     cov["three_way_with_expected_values"] = dict(third)
     cov["agreeing_but_printed_differently_from_expected"] = expected_mismatch[:10]
     cov["ast_node_kinds_exercised"] = dict(node_hist.most_common())
